@@ -22,7 +22,7 @@ SERVES = {"C01": ["bloom", "disk", "ebf"], "C02": ["cms"], "C03": ["cko", "ccko"
           "C13": ["bloom", "disk", "cbloom"],
           "C14": ["bloom", "disk", "cbloom", "cms", "ebf", "rbf", "qf", "cko", "ccko"], "C17": ["hh", "st"], "C20": ["bits"], "C07": ["cko", "ccko"],
           "C19": ["bloom", "disk", "cbloom", "cms", "ebf", "rbf", "qf", "cko", "ccko", "hh"]}
-NOAUX = {"ns": [], "q": 0, "lost": 0, "uniq": 0, "dump": 0}
+NOAUX = {"ns": [], "q": 0, "lost": 0, "uniq": 0, "dump": 0, "lf": 0}
 # "big" configurations: each crosses a block-size mark that a blocked / paged / buffered implementation would care about
 BIG = {
     "bloom": [(21020, 0.05), (100000, 0.01), (7000, 0.01), (3500, 0.01), (20000, 0.01)],   # 16384 B (= 4 x 4096), 8407 B, 119814 B, 4194 B, 23963 B
@@ -206,6 +206,7 @@ class Rec:
             a["ns"] = [struct.unpack("Q", data[i * (8 + blen): i * (8 + blen) + 8])[0] for i in range(size)]
         elif kind == "qf":
             a["q"] = obj.quotient
+            a["lf"] = int(round(obj.max_load_factor * 10000))
         elif kind == "ccko":
             a["uniq"] = obj.unique_elements
         return a
@@ -397,6 +398,10 @@ class Rec:
                         if self.obj.elements_added < (1 << nq) * 0.8:
                             self.obj.resize(nq)
                             self.emit("rsz", [], a=nq, probe_idx=pi, full=full)
+                    elif 0.28 <= r < 0.31 and self.tr["auto"]:
+                        lf = rnd.choice([0.3, 0.5, 0.65, 0.7, 0.75, 0.9, 0.95])
+                        self.obj.max_load_factor = lf
+                        self.emit("lf", [], a=int(round(lf * 10000)), probe_idx=pi, full=full)
                     elif not self.tr["auto"] and self.obj.elements_added >= self.obj.num_elements - 1:
                         self.obj.remove(key)
                         self.emit("rem", [(i, 1)], probe_idx=pi, full=full)
